@@ -133,6 +133,11 @@ func (s *Scope) Scope(name string, opts ...ScopeOption) *Scope {
 		if ctrNode, ok := node.Wrapped.(*constructorNode); ok {
 			ctrNode.CopyOrder(s, child)
 		}
+		// value group parameters are graph nodes of their own and need
+		// their order in the child's graph as well.
+		if pgs, ok := node.Wrapped.(*paramGroupedSlice); ok {
+			pgs.orders[child] = pgs.orders[s]
+		}
 	}
 
 	for _, opt := range opts {
